@@ -1,5 +1,6 @@
 //! inject: src/debugger/debugee/dwarf/type.rs
-//! t7: src/debugger/debugee/dwarf/type.rs
+//! t7: src/debugger/debugee/dwarf/type.rs, src/debugger/variable/value/parser.rs
+//! t7-path: src/debugger/variable/value/serialize.rs
 //! t7-keep-std: src/debugger/debugee/dwarf/type.rs: ^pub type TypeCache
 //
 // Helper (no harness of its own): builds a one-type ComplexType for harnesses in other modules
